@@ -196,6 +196,9 @@ class HistGen:
             out = o.get("out")
             if isinstance(out, dict) and out.get("kind") == "fail" and "code" not in out and out["f"] in STATUS_CODES:
                 out["code"] = self.rng.choice(STATUS_CODES[out["f"]])
+        for i, o in enumerate(self.ops[:-1]):                  # some transactions arrive right behind a harvest request
+            if o["op"] == "tick" and self.ops[i + 1]["op"] == "txn" and self.rng.random() < 0.6:
+                o["fuse"] = True
         return {"ops": self.ops, "profile": self.profile, "complete": complete}
 
     def p_all_ok(self):
@@ -754,10 +757,31 @@ def evaluate(name, hists, obs, shards=4, timeout=900):
     return res
 
 
+def go_ops(ops):
+    """The operation list as the Go harness executes it: a harvest request marked "fuse" and the transaction behind
+    it are handed to the processor back to back (the transaction's own step becomes empty); the model and the
+    monitors see the two operations in the same order, one after the other."""
+    out = []
+    skip = False
+    for i, o in enumerate(ops):
+        if skip:
+            out.append({"op": "nop"})
+            skip = False
+            continue
+        if o["op"] == "tick" and o.get("fuse") and i + 1 < len(ops) and ops[i + 1]["op"] == "txn":
+            t = dict(o)
+            t["then"] = ops[i + 1]
+            out.append(t)
+            skip = True
+        else:
+            out.append(o)
+    return out
+
+
 def run_harness(binary, hists, settle_us=2500, parallel=8, name="proc", timeout=900):
     inp = os.path.join(vlib.BUILD, name + "_in.json")
     outp = os.path.join(vlib.BUILD, name + "_out.json")
-    json.dump({"histories": [{"ops": h["ops"]} for h in hists], "settle_us": settle_us, "parallel": parallel}, open(inp, "w"))
+    json.dump({"histories": [{"ops": go_ops(h["ops"])} for h in hists], "settle_us": settle_us, "parallel": parallel}, open(inp, "w"))
     for f in (outp, outp + ".cur"):
         if os.path.exists(f):
             os.remove(f)
